@@ -74,6 +74,9 @@ func c13Run(r *core.Run) {
 	if !o.PreHistory(r) || !o.Build() {
 		return
 	}
+	if t.Int(5, "c13.otherapi") == 1 {
+		OtherAPICalls(r, o.Node.SP, 1)
+	}
 	kind := outKinds[t.Int(3, "c13.kind")]
 	phase := []string{"first-use", "cached", "restart"}[t.Int(3, "c13.phase")]
 	// a neighbour service provider that was handed the very same key-store objects but is configured
